@@ -52,7 +52,7 @@ func init() {
 		Cfg:        dsim.Config{MaxChaosSteps: 40, MaxStableSteps: 50, Horizon: time.Second},
 		Real:       []string{"keypem/keyfile.OpenOrWritePrivKey", "keypem.ParsePrivKeyPem / MarshalPrivKeyPem", "crypto key generation and (un)marshalling", "the real file system (scratch directory)"},
 		Stub:       []string{"crash points are modelled on the file content (any prefix of the last write / empty / missing), not injected inside os.WriteFile: there is no file-system seam in the code"},
-		FaultKinds: []string{"fault:torn-write", "fault:lost-write", "fault:empty-file", "fault:bit-corruption", "fault:garbage", "fault:wrong-pem-type", "fault:pubkey-pem", "fault:path-is-directory", "fault:path-below-file", "fault:symlink-loop", "fault:dangling-symlink", "fault:name-too-long"},
+		FaultKinds: []string{"fault:torn-write", "fault:lost-write", "fault:empty-file", "fault:bit-corruption", "fault:garbage", "fault:wrong-pem-type", "fault:pubkey-pem", "fault:path-is-directory", "fault:path-below-file", "fault:symlink-loop", "fault:dangling-symlink", "fault:name-too-long", "fault:write-fails", "fault:permission-denied"},
 		Notes:      []string{"no concurrency in this property: the schedule dimension is the order of loads, crashes and file-state faults"},
 	})
 }
@@ -76,6 +76,7 @@ func (w *c39World) fail(v *dsim.Violation) {
 }
 
 func (w *c39World) reset() {
+	_ = os.Chmod(filepath.Join(w.dir, "ro"), 0o755)
 	_ = os.RemoveAll(w.dir)
 	_ = os.MkdirAll(w.dir, 0o755)
 	w.path = filepath.Join(w.dir, "node.pem")
@@ -117,7 +118,9 @@ func (w *c39World) load() {
 		return
 	}
 	switch before {
-	case "missing", "dangling-symlink":
+	case "missing", "dangling-symlink", "missing-parent-dir", "dangling-into-missing-dir", "readonly-dir":
+		// (for the last three the write cannot succeed: an error is the expected outcome; a
+		// key with a nil error must still have been written)
 		dat, rerr := os.ReadFile(w.path)
 		if rerr != nil {
 			w.fail(&dsim.Violation{Property: "C39", Rule: "generated-key-not-written", Witness: "file_state=" + before,
@@ -230,6 +233,32 @@ func (w *c39World) Actions(s *dsim.Sim, add func(dsim.Action)) {
 		w.state = "dangling-symlink"
 		w.ident = ""
 	})
+	set("missing-parent", "write-fails", 2, func() {
+		// the file is missing and so is its directory: stat says "does not exist", the write fails
+		w.reset()
+		w.path = filepath.Join(w.dir, "no-such-dir", "node.pem")
+		w.state = "missing-parent-dir"
+		w.ident = ""
+	})
+	set("dangling-far", "write-fails", 1, func() {
+		w.reset()
+		_ = os.Symlink(filepath.Join(w.dir, "no-such-dir", "target.pem"), w.path)
+		w.state = "dangling-into-missing-dir"
+		w.ident = ""
+	})
+	if os.Geteuid() != 0 {
+		set("readonly-dir", "write-fails", 2, func() {
+			w.reset()
+			ro := filepath.Join(w.dir, "ro")
+			_ = os.Mkdir(ro, 0o555)
+			w.path = filepath.Join(ro, "node.pem")
+			w.state = "readonly-dir"
+			w.ident = ""
+		})
+		if w.state == "intact" {
+			set("unreadable", "permission-denied", 2, func() { _ = os.Chmod(w.path, 0); w.state = "unreadable" })
+		}
+	}
 	set("long-name", "name-too-long", 1, func() {
 		w.reset()
 		w.path = filepath.Join(w.dir, strings.Repeat("n", 300)+".pem")
@@ -243,4 +272,7 @@ func (w *c39World) Done(s *dsim.Sim) bool                 { return w.ops > w.max
 func (w *c39World) Final(s *dsim.Sim, stuck bool) *dsim.Violation {
 	return w.viol
 }
-func (w *c39World) Teardown(s *dsim.Sim) { _ = os.RemoveAll(w.dir) }
+func (w *c39World) Teardown(s *dsim.Sim) {
+	_ = os.Chmod(filepath.Join(w.dir, "ro"), 0o755)
+	_ = os.RemoveAll(w.dir)
+}
